@@ -1,6 +1,7 @@
 import IrefVerif.Lemmas.Sub
 import IrefVerif.Props.C01
 import IrefVerif.Props.C02
+import IrefVerif.Props.Valid
 import IrefVerif.Model.Extra
 
 /-!
@@ -68,5 +69,53 @@ text: the model of the down-cast is the checked URI constructor (C01) -/
 theorem down_cast (x : Text) (hb : ∀ c ∈ x, c < 256) :
     accepts .uri x = acceptsSpec .uri x ∧ accepts .uriRef x = acceptsSpec .uriRef x :=
   ⟨C01.accepts_eq_spec .uri x hb, C01.accepts_eq_spec .uriRef x hb⟩
+
+/-- ASCII octets decode to themselves -/
+theorem utf8Decode_ascii (b : Text) (h : ∀ c ∈ b, c < 0x80) : utf8Decode? b = some b := by
+  induction b with
+  | nil => rfl
+  | cons c b ih =>
+    have hc := h c List.mem_cons_self
+    unfold utf8Decode?
+    simp only [hc, if_true, ih (fun x hx => h x (List.mem_cons_of_mem _ hx)), Option.map_some]
+
+/-- **the up-cast**: whatever `UriRef::new` accepts, `IriRef::new` accepts, with the same text — so
+the unchecked casts `as_iri_ref`, `into_iri_ref` produce values the IRI constructors would have
+produced -/
+theorem uriRef_embeds (b : Text) (hb : ∀ c ∈ b, c < 256) (h : accepts .uriRef b = true) :
+    accepts .iriRef b = true := by
+  obtain ⟨w, hs, hm⟩ := Valid.spec_of_accepts .uriRef b hb h
+  simp only [symbols, Kind.isChar, Bool.false_eq_true, if_false, Option.some.injEq] at hs
+  subst hs
+  have hascii := uriRef_ascii b hm
+  exact Valid.accepts_of_spec .iriRef b hb
+    ⟨b, by simp [symbols, Kind.isChar, utf8Decode_ascii b hascii], uriRef_sub_iriRef b hm⟩
+
+/-- … and `Uri::new` ⊆ `Iri::new` -/
+theorem uri_embeds (b : Text) (hb : ∀ c ∈ b, c < 256) (h : accepts .uri b = true) :
+    accepts .iri b = true := by
+  obtain ⟨w, hs, hm⟩ := Valid.spec_of_accepts .uri b hb h
+  simp only [symbols, Kind.isChar, Bool.false_eq_true, if_false, Option.some.injEq] at hs
+  subst hs
+  have hm' : Matches Rfc3986.URI b := hm
+  have hascii : ∀ c ∈ b, c < 0x80 := by
+    intro c hc
+    have := matches_le_maxSym hm' c hc
+    have hmx : maxSym Rfc3986.URI = 0x7E := by decide
+    omega
+  exact Valid.accepts_of_spec .iri b hb
+    ⟨b, by simp [symbols, Kind.isChar, utf8Decode_ascii b hascii], uri_sub_iri b hm⟩
+
+/-- conversely an accepted IRI reference whose octets are all ASCII and which the URI grammar
+matches is an accepted URI reference: the down-cast succeeds exactly on those -/
+theorem iriRef_down (b : Text) (hb : ∀ c ∈ b, c < 256) :
+    accepts .uriRef b = true ↔ Matches Rfc3986.URIreference b := by
+  constructor
+  · intro h
+    obtain ⟨w, hs, hm⟩ := Valid.spec_of_accepts .uriRef b hb h
+    simp only [symbols, Kind.isChar, Bool.false_eq_true, if_false, Option.some.injEq] at hs
+    subst hs; exact hm
+  · intro h
+    exact Valid.accepts_of_spec .uriRef b hb ⟨b, by simp [symbols, Kind.isChar], h⟩
 
 end IrefVerif.Props.C13
